@@ -153,3 +153,9 @@ Print Assumptions C05_model_peer_fingerprint_is_hash_of_presented_der.
 Theorem C05_model_pyopenssl_fingerprint_is_hash_of_dumped_der : ltac:(let t := type of @Certs_format.pyopenssl_fingerprint_is_hash_of_dumped_der in exact t).
 Proof. exact (@Certs_format.pyopenssl_fingerprint_is_hash_of_dumped_der). Qed.
 Print Assumptions C05_model_pyopenssl_fingerprint_is_hash_of_dumped_der.
+
+(* ---- tie to the code: which certificate of the PyOpenSSL connection is the peer's (coq/Equiv/EquivCerts.v): re-checked here against the definitions regenerated from /repo's working tree; see DESIGN.md 11.8 ---- *)
+From NV Require Equiv.EquivCerts.
+Theorem C05_code_conn_peer_certificate_tie : ltac:(let t := type of @EquivCerts.conn_peer_certificate_tie in exact t).
+Proof. exact (@EquivCerts.conn_peer_certificate_tie). Qed.
+Print Assumptions C05_code_conn_peer_certificate_tie.
